@@ -8,7 +8,7 @@ from . import geomgen as G
 DT = G.DT
 
 
-def rand_options(rng, geom, force_method=None, allow_expert=True, want_skip=False, quant_prob=0.7):
+def rand_options(rng, geom, force_method=None, allow_expert=True, want_skip=False, quant_prob=0.7, explicit=0.25):
     """returns (tokens, info). info: expert, req {uid: bits}, track, skip"""
     toks = []
     expert = allow_expert and rng.random() < 0.5
@@ -35,7 +35,19 @@ def rand_options(rng, geom, force_method=None, allow_expert=True, want_skip=Fals
             if a.att_type == G.NORMAL:
                 bits = max(2, bits)
             if expert:
-                toks.append(f"q{i}={bits}")
+                if explicit and a.att_type != G.NORMAL and rng.random() < explicit:
+                    # explicit quantization: box around the attribute's values (values inside the box)
+                    import struct
+                    comps = [a.components(v) for v in range(a.num_values)] or [(0.0,) * a.ncomp]
+                    mins = [min(c[k] for c in comps) for k in range(a.ncomp)]
+                    maxs = [max(c[k] for c in comps) for k in range(a.ncomp)]
+                    org = [G.f32(m - rng.choice([0.0, 0.5, 1.0]) * (1.0 + abs(m)) * 0.01) for m in mins]
+                    rngv = max([mx - o for mx, o in zip(maxs, org)] + [1e-3]) * rng.choice([1.0, 1.5, 2.0])
+                    rngv = G.f32(rngv if rng.random() < 0.7 else float(int(rngv) + 1))
+                    toks.append(f"x{i}={bits},{G.f32_bits(rngv)}," + ",".join(str(G.f32_bits(o)) for o in org))
+                    info.setdefault("explicit", {})[a.uid] = (bits, G.f32_bits(rngv), [G.f32_bits(o) for o in org])
+                else:
+                    toks.append(f"q{i}={bits}")
                 info["req"][a.uid] = bits
             else:
                 by_type.setdefault(a.att_type, bits)
@@ -78,9 +90,6 @@ def rand_options(rng, geom, force_method=None, allow_expert=True, want_skip=Fals
         sk = "".join(str(t) for t in present if rng.random() < 0.6) or str(rng.choice(present or [0]))
         toks.append(f"skip={sk}")
         info["skip"] = sk
-    else:
-        toks.append("skip=01234")
-        info["skip"] = "01234"
     return toks, info
 
 
@@ -91,7 +100,8 @@ def parse_encdec(hout):
     parts = hout.split(" | ")
     head = parts[0].split()
     return {"status": "ok", "hex": head[1], "nep": int(head[2]), "nef": int(head[3]),
-            "dec": parts[1].split() if len(parts) > 1 else [], "skip": parts[2].split() if len(parts) > 2 else []}
+            "dec": parts[1].split() if len(parts) > 1 else [], "skipall": parts[2].split() if len(parts) > 2 else [],
+            "skip": parts[3].split() if len(parts) > 3 else [], "extra": parts[4:]}
 
 
 def stream_class(hexs, is_mesh):
@@ -118,7 +128,7 @@ def make_case(geom, toks, info, checks, trail=b"", tags=(), flavour="plain"):
         cls = stream_class(r["hex"], geom.is_mesh)
         hx = r["hex"] + trail.hex()
         return (f"e2e cls={cls} req={req} skip={info['skip'] or '-'} hex={hx} -- {gtext} -- "
-                + " ".join(r["dec"]) + " -- " + " ".join(r["skip"]))
+                + " ".join(r["dec"]) + " -- " + " ".join(r["skipall"]) + " -- " + (" ".join(r["skip"]) or "-"))
 
     def oracle(hout, case):
         r = parse_encdec(hout)
@@ -145,13 +155,15 @@ def make_case(geom, toks, info, checks, trail=b"", tags=(), flavour="plain"):
         if r["status"] != "ok" or mout is None:
             return None
         mp = mout.split(" | ")
-        if len(mp) != 4:
+        if len(mp) != 6:
             return f"model output malformed: {mout[:200]}"
         if "corr" in checks:
             if not mp[0].startswith("unsupported") and mp[0] != " ".join(r["dec"]):
                 return f"decode of the same stream differs: implementation `{' '.join(r['dec'])[:300]}` model `{mp[0][:300]}`"
-            if mp[1] != "-" and not mp[1].startswith("unsupported") and mp[1] != " ".join(r["skip"]):
-                return f"skip-transform decode differs: implementation `{' '.join(r['skip'])[:300]}` model `{mp[1][:300]}`"
+            if not mp[1].startswith("unsupported") and mp[1] != " ".join(r["skipall"]):
+                return f"skip-all decode differs: implementation `{' '.join(r['skipall'])[:300]}` model `{mp[1][:300]}`"
+            if mp[2] != "-" and not mp[2].startswith("unsupported") and mp[2] != " ".join(r["skip"]):
+                return f"skip-transform decode differs: implementation `{' '.join(r['skip'])[:300]}` model `{mp[2][:300]}`"
         return None
 
     def spec(hout, mout, case):
@@ -159,12 +171,13 @@ def make_case(geom, toks, info, checks, trail=b"", tags=(), flavour="plain"):
         if r["status"] != "ok" or mout is None:
             return None
         mp = mout.split(" | ")
-        if len(mp) != 4:
+        if len(mp) != 6:
             return None
-        if "rt" in checks and mp[2].startswith("violation"):
-            return ("roundtrip:" + mp[2].split(":", 1)[1].strip()[:40], f"RoundTripOK (Lean spec) fails on the implementation's output: {mp[2]} for `{case.op[:300]}`")
-        if "skip" in checks and mp[3].startswith("violation"):
-            return ("skip:" + mp[3].split(":", 1)[1].strip()[:40], f"skip-transform check (Lean spec) fails on the implementation's output: {mp[3]} for `{case.op[:300]}`")
+        if "rt" in checks and mp[3].startswith("violation"):
+            return ("roundtrip:" + mp[3].split(":", 1)[1].strip()[:40], f"RoundTripOK (Lean spec) fails on the implementation's output: {mp[3]} for `{case.op[:300]}`")
+        for k in (4, 5):
+            if "skip" in checks and mp[k].startswith("violation"):
+                return ("skip:" + mp[k].split(":", 1)[1].strip()[:40], f"skip-transform check (Lean spec, {'all types' if k == 4 else 'skip=' + str(info['skip'])}) fails on the implementation's output: {mp[k]} for `{case.op[:300]}`")
         return None
 
     # findings are identified by the class of input that fails: a geometry without points
